@@ -301,7 +301,7 @@ def check(case, rec):
     states.append(s)
   H.set_data(d, states)
   mjw.forward(m, d)
-  of = H.overflow(d)
+  of = H.overflow_fwd(d)
   if of.any():
     rec.inconclusive += 1
     return
